@@ -47,6 +47,11 @@ func init() {
 				fmt.Printf("BLK %d %s NC=%s C=%s\n", b.Index, b.Comment, a, c)
 			}
 		}
+		for _, nm := range []string{"(*Parser).parseSelectItem", "(*Parser).parseExpr", "(*Parser).parseOr", "(*Parser).parseLit", "(*Parser).parseSelector", "(*Parser).parseUnary", "(*Parser).parseComparison"} {
+			fn := w.fn(w.Mem, nm)
+			s := tk.summaryMode(fn, kIn(";"), nil, false, true)
+			fmt.Printf("CLEAN %s under {;}: pass=%s first=%s mayConsume=%v raisesNC=%s\n", nm, s.pass, s.first, s.mayConsume, s.raisesNC)
+		}
 		fmt.Println("contexts:", len(tk.sums), "flows:", tk.nflows)
 		var ks []string
 		for k := range tk.sums {
@@ -55,4 +60,8 @@ func init() {
 		sort.Strings(ks)
 		r.ok("TKDEBUG", "x", "-", "dbg")
 	}}})
+}
+
+func init() {
+	register(&propDef{ID: "DUMP", Explanation: "debug: prints all obligations of a property given in $DUMP_PROP", Rules: []ruleFn{func(w *World, r *Report) {}}})
 }
